@@ -226,3 +226,28 @@ class FaceAlgebra(AxisOb):
                 gv, wv = float(got), float(want)
                 res.append(('component_is_elementwise[%s][%s]' % (label, AX[a]), (math.isnan(gv) and math.isnan(wv)) or w.eq(gv, wv)))
         return res
+
+
+class CellAccessors(Ob):
+    """CellVariable.__array__ (NumPy integration) yields the interior cell values, CellVariable.cellcenters is the
+    mesh's cell-centre object; neither touches the variable (values, dirty bits)"""
+    name = 'CellVariable/array_protocol_and_cellcenters'
+    props = ('C14',)
+    grids = ALG_GRIDS
+    functions = ('pyfvtool.cell.CellVariable.__array__', 'pyfvtool.cell.CellVariable.cellcenters')
+
+    def setup(self, w):
+        a, _ = make_cellvar(w, 'va')
+        a.apply_BCs()
+        before = (a._value, a.BCs, bool(a.value.modified), bool(a.BCs.modified))
+        arr = a.__array__()
+        cc = a.cellcenters
+        after = (a._value, a.BCs, bool(a.value.modified), bool(a.BCs.modified))
+        untouched = before[0] is after[0] and before[1] is after[1] and before[2:] == after[2:]
+        return dict(a=a, arr=arr, cc=cc, untouched=untouched)
+
+    def claims(self, w, S, P, part=None):
+        a = S['a']
+        return [('array_is_interior_values', w.eq(w.at(S['arr'], tuple(p - 1 for p in P)), w.at(a._value, P))),
+                ('cellcenters_is_mesh_cellcenters', flag(w, S['cc'] is w.mesh.cellcenters)),
+                ('variable_untouched', flag(w, S['untouched']))]
